@@ -228,14 +228,11 @@ func propC10(c c10Case) *Outcome {
 		for _, v := range l.Vals {
 			ctx = context.WithValue(ctx, v.key(), v.Val)
 		}
-		if l.NoMD {
-			// make sure no outgoing metadata is inherited from an outer level either
-			ctx = metadata.NewOutgoingContext(ctx, nil)
-		} else if l.OutMD != nil {
+		if !l.NoMD && l.OutMD != nil {
 			ctx = metadata.NewOutgoingContext(ctx, l.OutMD.MD())
-		} else {
-			ctx = metadata.NewOutgoingContext(ctx, nil)
 		}
+		// NoMD: nothing is attached at all. (A handler's context never carries outgoing
+		// metadata of an enclosing caller: the value-blocking wrapper hides it.)
 		callerCtx[level] = ctx
 		var err error
 		if l.Stream {
